@@ -10,4 +10,9 @@ def sliceCopy (res : List UInt8) (lo : Nat) (hi : Option Nat) (src : List UInt8)
   let hi := hi.getD res.length
   if lo ≤ hi ∧ hi ≤ res.length ∧ hi - lo = src.length then .ok (res.take lo ++ src ++ res.drop hi) else .panic
 
+/-- `while cond { body }` with fuel (the state is the tuple of variables the body assigns) -/
+def whileFuel {σ : Type} : Nat → (σ → Bool) → (σ → σ) → σ → σ
+  | 0, _, _, s => s
+  | fuel + 1, cond, body, s => if cond s then whileFuel fuel cond body (body s) else s
+
 end Sm9
